@@ -6,7 +6,7 @@
    thisRow[2048*3]).  All theorems quantify over EVERY token stream [ts] (valid or not) and every
    well-formed client state. *)
 From LV Require Import Dec.CliBase Dec.CliFbProofs Dec.CliDec Dec.CliDecZ Dec.CliMsg Dec.CliInit Dec.RefEnc
-     Dec.CliSound Dec.CliSafe Dec.CliSafeFix Dec.CliOobWitness.
+     Dec.CliSound Dec.CliSafe Dec.CliSafeFix Dec.CliSafeZ Dec.CliOobWitness.
 Local Open Scope Z_scope.
 
 (* ---- progress: a step that returns TRUE consumed at least one token and leaves a consistent state;
@@ -70,10 +70,10 @@ Proof. exact safe_dec_cursor. Qed.
         dd06ff7, 0870444, 01fc326, 6de7bdd, d9a5962, 112b5b7, a7a3a60).  With the UltraZip bound checks (bit 0)
         and the three Tight checks (bits 1..3) in place, UltraZip and Tight rectangles can no longer leave an
         object either, whatever the server sends: an out-of-bounds access of the repaired mirror can only
-        originate in a TRLE / ZRLE rectangle (where C08-F27 below is still open). *)
+        originate in a TRLE / ZRLE rectangle; those are covered by the full theorem [C08_no_oob_write] below. *)
 Definition fixes_0_3 (s : cst) : Prop := fixed s 0 = true /\ fixed s 1 = true /\ fixed s 2 = true /\ fixed s 3 = true.
 
-Theorem C08_no_oob_write : forall s ts c,
+Theorem C08_no_oob_write_fixes_0_3 : forall s ts c,
   st_ok s -> fixes_0_3 s -> handle_msg s ts = Oob c ->
   exists s' x y w h enc ts', st_ok s' /\ fixes_0_3 s' /\ 0 <= x /\ 0 <= y /\ 0 <= w /\ 0 <= h /\
     In enc [cE_TRLE; cE_ZRLE; cE_ZYWRLE] /\ rect_body x y w h enc s' ts' = Oob c.
@@ -102,6 +102,49 @@ Proof.
   intros rx ry rw rh s ts Hx Hy Hw Hh Hs F1 F2 F3 HW HH.
   pose proof (safe_dec_tight rx ry rw rh Hx Hy Hw Hh s ts Hs (conj F1 (conj F2 (conj F3 (conj HW HH))))) as H.
   destruct (dec_tight rx ry rw rh s ts); auto.
+Qed.
+
+(* ---- THE WHOLE REPAIRED MIRROR (fix bits 0..6 and 8 = library commits dd06ff7, 0870444, 01fc326, 6de7bdd, d9a5962,
+        112b5b7, a7a3a60, 281f33a; the baseline [init_state] has them all): no server input makes
+        HandleRFBServerMessage's mirror leave an object - no exception list.  (Bit 7 = d211e4c only selects the
+        CPIXEL width of 16-bpp clients; the statement holds with and without it.) *)
+Definition fixes_all (s : cst) : Prop :=
+  fixed s 0 = true /\ fixed s 1 = true /\ fixed s 2 = true /\ fixed s 3 = true /\
+  fixed s 4 = true /\ fixed s 5 = true /\ fixed s 6 = true /\ fixed s 8 = true.
+
+Theorem C08_no_oob_write : forall s ts c, st_ok s -> fixes_all s -> handle_msg s ts <> Oob c.
+Proof.
+  intros s ts c Hs Hf E. pose proof (no_oob_repaired s ts Hs Hf) as H. rewrite E in H. exact H.
+Qed.
+
+Theorem C08_no_oob_rect_all : forall x y w h enc s ts c,
+  0 <= x -> 0 <= y -> 0 <= w -> 0 <= h -> st_ok s -> fixes_all s -> rect_body x y w h enc s ts <> Oob c.
+Proof.
+  intros x y w h enc s ts c Hx Hy Hw Hh Hs Hf E.
+  pose proof (rect_body_safe_all x y w h enc Hx Hy Hw Hh s ts Hs Hf) as H. rewrite E in H. exact H.
+Qed.
+
+Theorem C08_no_oob_zrle_fixed : forall x y w h s ts c,
+  0 <= x -> 0 <= y -> 0 <= w -> 0 <= h -> st_ok s ->
+  fixed s 5 = true -> fixed s 6 = true -> fixed s 8 = true -> x + w <= c_w s -> y + h <= c_h s ->
+  dec_zrle x y w h s ts <> Oob c.
+Proof.
+  intros x y w h s ts c Hx Hy Hw Hh Hs F5 F6 F8 HW HH E.
+  pose proof (safe_dec_zrle x y w h Hx Hy Hw Hh s ts Hs (conj F5 (conj F6 (conj F8 (conj HW HH))))) as H.
+  rewrite E in H. exact H.
+Qed.
+
+Theorem C08_no_oob_trle_fixed : forall x y w h s ts c,
+  0 <= x -> 0 <= y -> st_ok s -> fixed s 4 = true -> x + w <= c_w s -> y + h <= c_h s ->
+  dec_trle x y w h s ts <> Oob c.
+Proof.
+  intros x y w h s ts c Hx Hy Hs F4 HW HH E.
+  pose proof (safe_dec_trle x y w h Hx Hy s ts Hs (conj F4 (conj HW HH))) as H. rewrite E in H. exact H.
+Qed.
+
+Example C08_no_oob_write_nonvacuous : st_ok (init_state f888 255 16 16) /\ fixes_all (init_state f888 255 16 16).
+Proof.
+  split; [split; [apply init_state_wf; lia|unfold bypp_pos; cbn; lia]|]. repeat split; reflexivity.
 Qed.
 
 (* the baseline state of the mirror satisfies the hypotheses *)
@@ -149,12 +192,11 @@ Proof.
   split; [split; [apply old_state_wf; lia|unfold bypp_pos; cbn; lia]|exact w_zrle_pal_oob].
 Qed.
 
-(* ---- the repaired flow (baseline [init_state], fixes 0..6 = commits dd06ff7..a7a3a60) still leaves an object in
-        the 24-bit ZRLE instances: the last 3-byte CPIXEL of a completely filled scratch area is read as 4 bytes
-        (reproduced under ASan on a7a3a60, corpus/C08/w_zrle_cpixel24.script, finding C08-F27, status known);
-        with fix 8 (notes/fix_C08_7.diff) the same stream decodes *)
+(* ---- the flow with the fixes 0..6 only (before 281f33a) still left an object in the 24-bit ZRLE instances: the
+        last 3-byte CPIXEL of a completely filled scratch area is read as 4 bytes (reproduced under ASan on a7a3a60,
+        corpus/C08/w_zrle_cpixel24.script, finding C08-F27, fixed by 281f33a); regression witness *)
 Theorem C08_zrle_cpixel24_refuted : exists s ts c, st_ok s /\ c_fix s = 127 /\ handle_msg s ts = Oob c.
 Proof.
-  exists (init_state f888 255 65 1), w_zrle_cp24, 36.
+  exists (state127 f888 255 65 1), w_zrle_cp24, 36.
   split; [split; [apply init_state_wf; lia|unfold bypp_pos; cbn; lia]|split; [reflexivity|exact w_zrle_cp24_oob]].
 Qed.
